@@ -805,7 +805,19 @@ func (a *act) builtin(b *ssa.Builtin, c *ssa.CallCommon, args []Val, guard strin
 		fx.ctx.Assert(fmt.Sprintf("(forall ((i Int)) (! (=> (and (<= 0 i) (< i %s)) (= %s (select (select %s (sbase %s)) (sidx %s i)))) :pattern (%s) :pattern ((select (select %s (sbase %s)) (sidx %s i)))))", ls, elemR("i"), h, s.T, s.T, elemR("i"), h, s.T, s.T))
 		fx.ctx.Assert(fmt.Sprintf("(forall ((i Int)) (! (=> (and (<= 0 i) (< i %s)) (= (select %s i) (select (select %s (sbase %s)) (sidx %s i)))) :pattern ((select %s i))))", ls, na, h, s.T, s.T, na))
 		fx.ctx.Assert(fmt.Sprintf("(forall ((j Int)) (! (=> (and (<= %s j) (< j (+ %s %s))) (= (select %s j) (select (select %s (sbase %s)) (sidx %s (- j %s))))) :pattern ((select %s j))))", ls, ls, lt, na, h, t.T, t.T, ls, na))
-		// (no source-side trigger for the shifted part: together with the result-side trigger it would ping-pong forever)
+		// (no source-side trigger for the shifted part in general: together with the result-side trigger it would ping-pong
+		// forever; with a slice literal in front the shift is a numeral and both solvers normalise (j + k) - k back to j)
+		if s.CLen > 0 && s.CLen <= 5 {
+			// the elements of the literal prefix, as ground facts (witnesses for "the new element is in the result")
+			for i := 0; i < s.CLen-1; i++ {
+				fx.ctx.Assert(Eq(elemR(fmt.Sprint(i)), Sel(Sel(h, App("sbase", s.T)), App("sidx", s.T, fmt.Sprint(i)))))
+			}
+		}
+		if s.CLen > 0 {
+			k := fmt.Sprint(s.CLen - 1)
+			fx.ctx.Assert(fmt.Sprintf("(forall ((j Int)) (! (=> (and (<= 0 j) (< j %s)) (= %s (select (select %s (sbase %s)) (sidx %s j)))) :pattern ((select (select %s (sbase %s)) (sidx %s j)))))",
+				lt, elemR("(+ j "+k+")"), h, t.T, t.T, h, t.T, t.T))
+		}
 		// common case: one appended element
 		fx.ctx.Assert(Imp(Eq(lt, "1"), Eq(Sel(na, ls), Sel(Sel(h, App("sbase", t.T)), App("soff", t.T)))))
 		// ... stated over result[len(s)] as well: the ground term is the witness for "the appended element is in the result"
